@@ -15,8 +15,12 @@ Record obs := mkObs {
   o_res : ores;
   o_extra : N }.                        (* links the model has no name for (order edges, root) + layout surprises *)
 
-Inductive case := Case (nin : N) (track : bool) (p : list cmd) (ot : obs)
-                       (q : list pcmd) (op : obs).
+(* Case2: the tracked program was run on two TrackedDfg builders, the second one receiving the very same
+   Python objects (commands, metadata) as the first; the property is about commands as values, so both
+   observations must satisfy everything a single one must. *)
+Inductive case :=
+  | Case (nin : N) (track : bool) (p : list cmd) (ot : obs) (q : list pcmd) (op : obs)
+  | Case2 (nin : N) (track : bool) (p : list cmd) (ot ot2 : obs) (q : list pcmd) (op : obs).
 
 Definition wire_eqb : wire -> wire -> bool := pair_eqb N.eqb N.eqb.
 Definition link_eqb : link -> link -> bool := pair_eqb wire_eqb (pair_eqb N.eqb N.eqb).
@@ -42,13 +46,16 @@ Definition graph_corr (h : hugr) (o : obs) : bool :=
            (map (fun b : N * N * meta => (fst (fst b), snd b)) (o_nodes o)) &&
   perm_eqb link_eqb (h_links h) (o_links o) && N.eqb (o_extra o) 0.
 
-Definition corr (c : case) : bool :=
-  match c with
-  | Case nin track p ot q op =>
+Definition corr1 (nin : N) (track : bool) (p : list cmd) (ot : obs) (q : list pcmd) (op : obs) : bool :=
       let '(h, tr, r) := run_tracked nin track p in
       let '(h2, r2) := run_plain nin q in
       graph_corr h ot && list_eqb (option_eqb wire_eqb) tr (o_tracked ot) && ores_eqb (of_model r) (o_res ot) &&
-      graph_corr h2 op && ores_eqb (of_model r2) (o_res op)
+      graph_corr h2 op && ores_eqb (of_model r2) (o_res op).
+
+Definition corr (c : case) : bool :=
+  match c with
+  | Case nin track p ot q op => corr1 nin track p ot q op
+  | Case2 nin track p ot ot2 q op => corr1 nin track p ot q op && corr1 nin track p ot2 q op
   end.
 
 (* ---- monitor: the specification on the two observed runs ---- *)
@@ -60,9 +67,7 @@ Definition graph_same (a b : obs) : bool :=
            (o_nodes a) (o_nodes b) &&
   perm_eqb link_eqb (o_links a) (o_links b) && N.eqb (o_extra a) 0 && N.eqb (o_extra b) 0.
 
-Definition mon (c : case) : bool :=
-  match c with
-  | Case nin track p ot q op =>
+Definition mon1 (nin : N) (track : bool) (p : list cmd) (ot : obs) (q : list pcmd) (op : obs) : bool :=
       let '(q', ok, fin) := explicit nin track p in
       (* the program that was run on the plain builder is the explicit program of the specification *)
       list_eqb pcmd_eqb q' q &&
@@ -71,5 +76,10 @@ Definition mon (c : case) : bool :=
       | ROk => if ok then ores_eqb (o_res ot) ROk && list_eqb (option_eqb wire_eqb) (o_tracked ot) (table fin)
                else ores_eqb (o_res ot) (RErr EIndex) && list_eqb (option_eqb wire_eqb) (o_tracked ot) (table fin)
       | r => ores_eqb (o_res ot) r
-      end
+      end.
+
+Definition mon (c : case) : bool :=
+  match c with
+  | Case nin track p ot q op => mon1 nin track p ot q op
+  | Case2 nin track p ot ot2 q op => mon1 nin track p ot q op && mon1 nin track p ot2 q op
   end.
